@@ -114,7 +114,7 @@ def plan(tier):
             c1 = u % len(POOL)
             c2, c3 = (c1 + 1) % len(POOL), (u * 7 + 3) % len(POOL)
             own = [(c1, i) for i in range(3)] + [(c2, i) for i in range(3)] + [(c3, u % 3)]
-            units.append({'n': 30, 'own': own})
+            units.append({'n': 60, 'own': own})
     return units
 
 
